@@ -24,6 +24,7 @@ import (
 	sdk "github.com/cosmos/cosmos-sdk/types"
 	authtypes "github.com/cosmos/cosmos-sdk/x/auth/types"
 	banktypes "github.com/cosmos/cosmos-sdk/x/bank/types"
+	distrtypes "github.com/cosmos/cosmos-sdk/x/distribution/types"
 	stakingtypes "github.com/cosmos/cosmos-sdk/x/staking/types"
 
 	band "github.com/bandprotocol/chain/v3/app"
@@ -56,7 +57,7 @@ var (
 // ---- case -----------------------------------------------------------------------------------------------
 
 type c16Op struct {
-	K     string `json:"k"` // stake|unstake|delegate|undelegate|redelegate|setlock|deactivate|mkvault|params|reimport
+	K     string `json:"k"` // stake|unstake|delegate|undelegate|redelegate|setlock|deactivate|mkvault|params|reimport|extsend
 	A     int    `json:"a,omitempty"`
 	V     int    `json:"v,omitempty"`     // validator (source); late-bound mod #validators
 	W     int    `json:"w,omitempty"`     // destination validator
@@ -181,7 +182,7 @@ func genC16(rt *rapid.T) c16Case {
 	nops := rapid.IntRange(12, 50).Draw(rt, "nops")
 	for i := 0; i < nops; i++ {
 		a := acct()
-		switch gen.Pick(rt, "opw", 10, 16, 9, 16, 8, 16, 3, 1, 4, 9, 6, 3, 6) {
+		switch gen.Pick(rt, "opw", 10, 16, 9, 16, 8, 16, 3, 1, 4, 9, 6, 3, 6, 5) {
 		case 0:
 			c.Ops = append(c.Ops, stake(a))
 		case 1:
@@ -230,6 +231,17 @@ func genC16(rt *rapid.T) c16Case {
 			u := undelegate(a, "all")
 			u.V = vv
 			c.Ops = append(c.Ops, u)
+		case 13:
+			// coins pushed INTO the restake module account from outside the module: bank MsgSend / MsgMultiSend,
+			// a distribution withdraw address, a community-pool spend through governance
+			d := denom("xs-d")
+			o := c16Op{K: "extsend", A: a, D: d, Amt: c16GenAmt(rt, "xs-amt", d),
+				Mode: gen.OneOf(rt, "xs-mode", "send", "send", "send", "send", "multisend", "multisend", "multisend", "withdrawaddr", "poolspend"),
+				Amt2: gen.OneOf(rt, "xs-size", "one", "raw", "raw", "all")}
+			c.Ops = append(c.Ops, o)
+			if gen.Chance(rt, "xs-reimp", 1, 4) {
+				c.Ops = append(c.Ops, c16Op{K: "reimport"})
+			}
 		case 11:
 			// genesis export -> new application instance initialised from the exported document
 			c.Ops = append(c.Ops, c16Op{K: "reimport"})
@@ -1429,6 +1441,124 @@ func runC16(c c16Case) *pbt.Verdict {
 			if !finish(where, passed) {
 				return v
 			}
+
+		case "extsend":
+			// Somebody outside the module tries to credit the restake module account. Whether the attempt is refused
+			// is only counted; what the statement says is checked by the state check after it: the module account
+			// holds exactly the sum of all recorded stakes.
+			modAddr := authtypes.NewModuleAddress(restaketypes.ModuleName)
+			d := c16Denoms[c16Mod(op.D, 2)]
+			x := c16Parse(op.Amt)
+			switch op.Amt2 {
+			case "one":
+				x = big.NewInt(1)
+			case "all":
+				x = new(big.Int).Set(m.bal[a][d])
+			default:
+				if x.Cmp(m.bal[a][d]) > 0 {
+					x = new(big.Int).Rsh(m.bal[a][d], 3)
+				}
+			}
+			if x.Sign() <= 0 {
+				x = big.NewInt(1)
+			}
+			where = fmt.Sprintf("op %d extsend(acct %d, %s, %s%s -> restake module account)", i, a, op.Mode, x, d)
+			coins := sdk.NewCoins(c16Coin(d, x))
+			switch op.Mode {
+			case "multisend":
+				// one input, two outputs: the module account and another user
+				b := c16Mod(a+1, nacc)
+				toMod := new(big.Int).Rsh(c16Add(x, c16One), 1)
+				rest := c16Sub(x, toMod)
+				outs := []banktypes.Output{banktypes.NewOutput(modAddr, sdk.NewCoins(c16Coin(d, toMod)))}
+				if rest.Sign() > 0 {
+					outs = append(outs, banktypes.NewOutput(ch.Users[b].Addr, sdk.NewCoins(c16Coin(d, rest))))
+				}
+				out, alive := runTx(u, banktypes.NewMsgMultiSend(banktypes.NewInput(u.Addr, coins), outs))
+				if !alive {
+					return v
+				}
+				if out.ok {
+					class("bank-multisend-to-module-account-accepted")
+					class("bank-send-to-module-account-accepted")
+					m.bal[a][d].Sub(m.bal[a][d], x)
+					if rest.Sign() > 0 {
+						m.bal[b][d].Add(m.bal[b][d], rest)
+					}
+				} else if x.Cmp(m.bal[a][d]) <= 0 {
+					class("bank-multisend-to-module-account-refused")
+					class("bank-send-to-module-account-refused")
+				}
+				if !finish(where, out.ok) {
+					return v
+				}
+			case "withdrawaddr":
+				// no rewards exist in this world (no inflation, no fees): only the attempt to redirect them is made
+				out, alive := runTx(u, distrtypes.NewMsgSetWithdrawAddress(u.Addr, modAddr))
+				if !alive {
+					return v
+				}
+				if out.ok {
+					class("withdraw-address-to-module-account-accepted")
+				} else {
+					class("withdraw-address-to-module-account-refused")
+				}
+				if !finish(where, true) {
+					return v
+				}
+			case "poolspend":
+				// the user funds the community pool, governance spends that amount to the restake module account
+				if d != "uband" && x.BitLen() > 62 {
+					x = new(big.Int).Rsh(x, 8)
+					coins = sdk.NewCoins(c16Coin(d, x))
+				}
+				out, alive := runTx(u, distrtypes.NewMsgFundCommunityPool(coins, u.Addr.String()))
+				if !alive {
+					return v
+				}
+				if out.ok {
+					m.bal[a][d].Sub(m.bal[a][d], x)
+				}
+				if !finish(where+" [fund community pool]", out.ok) {
+					return v
+				}
+				if out.ok {
+					passed, _, err := ch.GovExec(&distrtypes.MsgCommunityPoolSpend{Authority: sim.GovAuthority(), Recipient: modAddr.String(), Amount: coins})
+					if err != nil {
+						v.Failf("C16/finalize", "%s: governance run failed: %v", where, err)
+						return v
+					}
+					if passed {
+						class("community-pool-spend-to-module-account-accepted")
+					} else {
+						class("community-pool-spend-to-module-account-refused")
+					}
+					if !finish(where+" [community pool spend]", true) {
+						return v
+					}
+				}
+			default:
+				out, alive := runTx(u, banktypes.NewMsgSend(u.Addr, modAddr, coins))
+				if !alive {
+					return v
+				}
+				if out.ok {
+					class("bank-send-to-module-account-accepted")
+					m.bal[a][d].Sub(m.bal[a][d], x)
+				} else if x.Cmp(m.bal[a][d]) <= 0 {
+					class("bank-send-to-module-account-refused")
+					if !m.isAllowed(d) {
+						class("bank-send-to-module-account-refused-unallowed-denom")
+					}
+					if x.Cmp(m.bal[a][d]) == 0 {
+						class("bank-send-whole-balance-to-module-account-refused")
+					}
+				}
+				if !finish(where, out.ok) {
+					return v
+				}
+			}
+			v.Count("external_sends_to_module_account", 1)
 
 		case "reimport":
 			// The state is exported with the application's own genesis export, a NEW application instance is
